@@ -193,6 +193,18 @@ def malformed_menu():
                 continue
             out.append(ln)
         return '\r\n'.join(out)
+    def without_nth(prefix, nth):
+        out = []
+        c = 0
+        for ln in good:
+            if ln.startswith(prefix):
+                c += 1
+                if c == nth:
+                    continue
+            out.append(ln)
+        return '\r\n'.join(out)
+    later = [('no-%s-in-component-%d' % (pfx.lower(), nth), without_nth(pfx, nth))
+             for pfx in ('DTSTART', 'TZOFFSETFROM', 'TZOFFSETTO') for nth in (1, 2)]
     m = [('no-tzid', without('TZID')), ('no-dtstart', without('DTSTART')), ('no-offsetfrom', without('TZOFFSETFROM')),
          ('no-offsetto', without('TZOFFSETTO')), ('unclosed-component', without('END:DAYLIGHT')),
          ('unknown-component', '\r\n'.join(good).replace('BEGIN:DAYLIGHT', 'BEGIN:TWILIGHT').replace('END:DAYLIGHT', 'END:TWILIGHT')),
@@ -203,7 +215,7 @@ def malformed_menu():
          ('dtstart-with-tzid', '\r\n'.join(good).replace('DTSTART:', 'DTSTART;TZID=Foo:', 1))]
     # not in the menu: an unknown *property* (FOO:BAR) or an extra parameter on TZID -- RFC 5545 allows iana/x-
     # properties and parameters there, the statement lists neither as malformed, so either answer is acceptable
-    return [('malformed', n, t) for n, t in m]
+    return [('malformed', n, t) for n, t in m + later]
 
 
 def signature(case, detail):
